@@ -114,3 +114,15 @@ func init() {
 		Prepare:     hTest("props/lint", "^TestC28", hOpts{QShards: 8, TShards: 16, QTimeout: 8 * time.Minute, TTimeout: 60 * time.Minute}),
 	}
 }
+
+func init() {
+	specs["C22"] = &spec{
+		LevelText:   "rapid-generated TL2 texts written token by token from the grammar in internal/tlast/tlparser_tl2.go (annotations, namespaces, magics, template parameters, aliases, structs of 0..12 fields, optional / ignored '_' / '_name' / upper-case field names, bracket types with and without index, nested type applications with numeric arguments, unions with and without the leading bar including single-variant ones, alias variants, the reserved word Type as a variant name, functions with every return form) with random layout and comments before combinators, variants and fields and to the right of fields; plus every .tl2 file of the repository. For the default and the canonical options: the formatted text must parse, parse to the same declarations (compared by reflection with positions and comment fields cleared), and formatting that text again must give the same text.",
+		LevelNote:   "Trusted: the harness text generator and the reflection-based comparison. Parser and formatter are /repo's; a text the parser rejects is outside the domain (counted).",
+		Technique:   "property-based testing (rapid): grammar-based text generation, round-trip and idempotence oracles",
+		Rule:        "non-trivial iff the file has >= 2 declarations, or a union, or the default formatting wraps lines; distinct by text; classes show how many inputs the parser accepted",
+		Assumptions: []string{"'the same declarations' ignores source positions and comments (the canonical options drop comments by design)"},
+		Floors:      []floor{{"parsed", 0.5, ""}, {"union", 0.15, ""}, {"wrapped-lines", 0.1, ""}},
+		Prepare:     hTest("props/c22", "^TestC22", hOpts{QShards: 8, TShards: 16, QTimeout: 8 * time.Minute, TTimeout: 60 * time.Minute}),
+	}
+}
